@@ -442,7 +442,7 @@ def run(ctx):
         rc += st['cells']
         rp += st['proved']
         if step > 1:
-            ctx.notes.append('quick tier: %s::to_posit is checked for every %dth leading-one position; the thorough tier takes all' % (q.name, step))
+            ctx.notes.append('quick tier: %s::to_posit is checked for every %dth leading-one position plus the four positions at each limb boundary; the thorough tier takes all' % (q.name, step))
     ctx.notes.append('to_posit rounding cells: the sticky position (and, for negative Q16E1/Q32E2 states, the lowest set bit) is sampled (3-4 values per cell) except for Q8E0 in the thorough tier')
     ctx.count('to_posit_rounding_cells', rc)
     ctx.count('to_posit_rounding_cells_proved', rp)
